@@ -244,10 +244,17 @@ func c06Explore(c *core.Ctx, sc *impl.Scratch, fc, dir string, pr *c06Prog, boun
 	var curSrc string
 	var curPts []string
 	var curPrinterPts map[string]int
+	curHeader := 0
+	headerPoint := strings.HasPrefix(pr.name, "corpus:") || strings.HasPrefix(pr.name, "decls:") || strings.HasPrefix(pr.name, "converse:")
 	st := explore.Explore(bound, func(ch *explore.Chooser) {
 		la := &layoutAdapter{ch: ch}
 		p := fo.NewPrinter(la)
 		s := ""
+		curHeader = 0
+		if headerPoint {
+			// the package line and the imports (independent of the program: offered on the hand-kept programs only)
+			curHeader = p.L.Choose("file-header", len(c06Headers))
+		}
 		for _, d := range pr.cs.Defs {
 			for k := p.L.Choose("blank-lines-before-def", 3); k > 0; k-- {
 				s += "\n"
@@ -271,7 +278,7 @@ func c06Explore(c *core.Ctx, sc *impl.Scratch, fc, dir string, pr *c06Prog, boun
 		}
 		curSrc, curPts, curPrinterPts = s, la.points, p.Points
 	}, func(ch *explore.Chooser) bool {
-		src := fo.Prelude + curSrc
+		src := c06WithHeader(curHeader) + curSrc
 		os.Remove(filepath.Join(dir, "gen_t.go"))
 		os.WriteFile(filepath.Join(dir, "t.fo"), []byte(src), 0o644)
 		r := impl.RunWithRetry(dir, 20*time.Second, 60*time.Second, fc, sc.PkgAllFoi(), "t.fo")
@@ -336,6 +343,41 @@ func c06Explore(c *core.Ctx, sc *impl.Scratch, fc, dir string, pr *c06Prog, boun
 }
 
 // c06Shape recognises the program shapes of the two layout-sensitive known findings.
+// c06Headers: re-layouts of the package line and the import lines of the prelude (0 = as written)
+var c06Headers = []func(pkg string, imports []string) string{
+	func(pkg string, imports []string) string { return pkg + "\n" + strings.Join(imports, "\n") + "\n" },
+	func(pkg string, imports []string) string { return "// c\n" + pkg + "\n" + strings.Join(imports, "\n") + "\n" },
+	func(pkg string, imports []string) string { return "\n\n" + pkg + "\n" + strings.Join(imports, "\n") + "\n" },
+	func(pkg string, imports []string) string {
+		return "/* c\n   c */\n" + pkg + "\n" + strings.Join(imports, "\n") + "\n"
+	},
+	func(pkg string, imports []string) string { return pkg + " // c\n" + strings.Join(imports, "\n") + "\n" },
+	func(pkg string, imports []string) string {
+		return pkg + "\n\n// c\n\n" + strings.Join(imports, "\n") + "\n"
+	},
+	func(pkg string, imports []string) string { return pkg + "\n" + strings.Join(imports, "\n// c\n\n") + "\n" },
+	func(pkg string, imports []string) string { return pkg + "  \n" + strings.Join(imports, "   \n") + " \t\n" },
+	func(pkg string, imports []string) string {
+		return pkg + "\n" + strings.Join(imports, " /* c */\n") + " // c\n\n\n\n/* c */\n"
+	},
+}
+
+// c06WithHeader returns the prelude with its first lines (package + imports) laid out by variant k.
+func c06WithHeader(k int) string {
+	if k == 0 {
+		return fo.Prelude
+	}
+	lines := strings.Split(fo.Prelude, "\n")
+	pkg := lines[0]
+	var imports []string
+	i := 1
+	for i < len(lines) && strings.HasPrefix(lines[i], "import ") {
+		imports = append(imports, lines[i])
+		i++
+	}
+	return c06Headers[k](pkg, imports) + strings.Join(lines[i:], "\n")
+}
+
 func c06Shape(cs *fo.Case, src string) string {
 	lines := strings.Split(src, "\n")
 	indent := func(s string) int { return len(s) - len(strings.TrimLeft(s, " ")) }
